@@ -28,13 +28,19 @@ Toks == { <<60,97,62>>, <<60,47,97,62>>, <<60,98,62>>, <<60,47,98,62>>, <<60,97,
           <<60,97,32,107,61,34,49,34,62>>,                                                      \* <a k="1">
           <<60,98,32,120,115,105,58,110,105,108,61,34,116,114,117,101,34,47,62>>,               \* <b xsi:nil="true"/>
           <<195,160>>,                                                                          \* a-grave: UTF-8 C3 A0 (continuation byte = NBSP in Latin-1)
-          <<60,97,32,108,61,34,195,133,32,49,34,62>> }                                          \* <a l="A-ring 1">  (C3 85)
+          <<60,97,32,108,61,34,195,133,32,49,34,62>>,                                           \* <a l="A-ring 1">  (C3 85)
+          <<60,33,91,67,68,65,84,65,91,93,93,62>> }                                             \* <![CDATA[]]>  (the only source of an EMPTY text event)
 
 \* tokens that matter inside one text run of an element (Mode "textrun": <a> + tokens [+ </a>])
 TextToks == { <<116>>, <<32>>, <<60,33,91,67,68,65,84,65,91,99,93,93,62>>, <<60,33,45,45,120,45,45,62>>,
               <<60,33,68,79,67,84,89,80,69,32,100,62>>, <<38,108,116,59>>, <<60,47,97,62>>,
               <<195,160>>, <<194,160>>, <<208,160,32,195,133>>,        \* a-grave, NBSP, "Cyrillic-Er A-ring" (continuation bytes A0 / 85)
-              <<38,59>> }                                              \* &;  (a reference with an EMPTY name reaches the entity resolver)
+              <<38,59>>,                                               \* &;  (a reference with an EMPTY name reaches the entity resolver)
+              <<60,33,91,67,68,65,84,65,91,93,93,62>> }                \* <![CDATA[]]>
+
+\* Mode "textrunR": the same under a CUSTOM entity resolver ( &a; -> "A;&" ): references in the first and in later pieces of a run
+TextToksR == { <<116>>, <<32>>, <<60,33,91,67,68,65,84,65,91,99,93,93,62>>, <<60,33,45,45,120,45,45,62>>, <<60,63,112,63,62>>,
+               <<60,33,68,79,67,84,89,80,69,32,100,62>>, <<38,108,116,59>>, <<38,97,59>>, <<60,47,97,62>> }     \* ... <?p?> <!DOCTYPE d> &lt; &a; </a>
 
 \* Mode "nil": inside an element that carries a properly bound xsi:nil="true" (the deserializer treats its content as
 \* absent): what may nevertheless be there - text, CDATA, children (also nil ones), the end tag, more content after it
@@ -127,7 +133,7 @@ WsSites(L) == IF ElementOnly(L) THEN {j \in 2..Len(L) : TRUE} ELSE {}
 \* (a comment is inserted between two characters, never inside a multi-byte character)
 TextSites(L) == {j \in 1..Len(L) : L[j][1] = "Text" /\ Len(L[j][2]) >= 2 /\ CutAt(L[j][2], Len(L[j][2]) \div 2) >= 1}
 \* unknown children may be added only to element-only content of a struct that ignores unknown fields
-UnkChildOk(tyn) == tyn \in {"F02", "F03", "F05", "F11", "F18", "F19", "F20", "F22", "F23", "F29", "F32"}
+UnkChildOk(tyn) == tyn \in {"F02", "F03", "F05", "F11", "F18", "F19", "F20", "F22", "F23", "F29", "F32", "F35"}
 
 \* every single rewrite of the listed kinds
 Rewrites(L, unkOk) ==
@@ -162,7 +168,7 @@ InvisibleToEvents(st) == ~st.unkAttr /\ ~st.unkFirst /\ ~st.unkLast
 \* ---------------------------------------------------------------- interleavings
 \* children of the root element of a logical document, as [name, lo, hi] index ranges into L
 \* list fields of the element named nm at nesting depth d (0 = root) of family type tyn
-ListFields(tyn) == IF tyn = "F22" THEN {n_a, n_b} ELSE IF tyn = "F23" THEN {n_a, n_b, n_d} ELSE IF tyn = "F26" THEN {n_a, n_b} ELSE IF tyn = "F29" THEN {n_a, n_b, n_d} ELSE IF tyn = "F33" THEN {n_a, n_b} ELSE IF tyn = "F34" THEN {<<112>>, <<120>>, <<113>>} ELSE {}
+ListFields(tyn) == IF tyn = "F22" THEN {n_a, n_b} ELSE IF tyn = "F23" THEN {n_a, n_b, n_d} ELSE IF tyn = "F26" THEN {n_a, n_b} ELSE IF tyn = "F29" THEN {n_a, n_b, n_d} ELSE IF tyn = "F35" THEN {n_a, n_b, n_d} ELSE IF tyn = "F33" THEN {n_a, n_b} ELSE IF tyn = "F34" THEN {<<112>>, <<120>>, <<113>>} ELSE {}
 \* A fixed-size sequence (array, tuple) stops after its last item instead of scanning to the parent's end tag, so what has to be
 \* buffered follows another rule; for such types the buffer model is not claimed (HeldOf = 0: only "the value or TooManyEvents,
 \* monotone in the limit" is checked)
@@ -196,15 +202,15 @@ Reassemble(L, order, tyn) == SubSeq(L, 1, 1 + StructDepth(tyn)) \o Flatten([i \i
 VARIABLES ty, v, doc, toks, phase
 dvars == <<ty, v, doc, toks, phase>>
 NoV == [z |-> 1]
-IsSoup == Mode \in {"soup", "textrun", "nil"}
-Init == /\ phase = 0 /\ doc = (IF Mode = "textrun" THEN <<60, 97, 62>> ELSE IF Mode = "nil" THEN NilOpen ELSE <<>>) /\ toks = 0 /\ v = NoV
+IsSoup == Mode \in {"soup", "textrun", "textrunR", "nil"}
+Init == /\ phase = 0 /\ doc = (IF Mode \in {"textrun", "textrunR"} THEN <<60, 97, 62>> ELSE IF Mode = "nil" THEN NilOpen ELSE <<>>) /\ toks = 0 /\ v = NoV
         /\ ty \in (IF IsSoup THEN {"-"} ELSE IF Mode = "rewriteS"
                     THEN \* (list items with white space are written as character references by the real serializer only: this
                          \* module renders documents itself, from the logical tree, where items are joined by blanks)
                          {sc \in SchemaSet(N) : InRT(sc) /\ \A i \in 1..Len(sc.attrs) : sc.attrs[i] # SList(STRW)}
                     ELSE Types)
 SoupNext == /\ IsSoup /\ toks < N
-            /\ \E t \in (IF Mode = "textrun" THEN TextToks ELSE IF Mode = "nil" THEN NilToks ELSE Toks) : doc' = doc \o t
+            /\ \E t \in (IF Mode = "textrun" THEN TextToks ELSE IF Mode = "textrunR" THEN TextToksR ELSE IF Mode = "nil" THEN NilToks ELSE Toks) : doc' = doc \o t
             /\ toks' = toks + 1 /\ UNCHANGED <<ty, v, phase>>
 ValNext == /\ ~IsSoup /\ phase = 0
            /\ \E x \in (IF Mode = "rewriteS" THEN {ValueOfSch(ty, i) : i \in 1..4} ELSE ValuesOf(ty, StrRT, "rt")) : v' = x
@@ -226,6 +232,23 @@ Inv_NoTwoTexts == IsSoup => NoTwoTexts(DeEvents(doc, SkipDoctype))
 Inv_DeBounded == IsSoup =>
     LET D == DeEvents(doc, SkipDoctype) IN D # <<>> /\ D[Len(D)][1] \in {"Eof", "Err"} /\ Len(D) <= Len(doc) + 2
 
+\* C07 "in bounded time": a top-level sequence of options ends, with at most one item per event
+Inv_RootSeqEnds ==
+    IsSoup => LET D == DeEvents(doc, SkipDoctype)
+                  n == RootOptItems(D, 1, Len(D) + 2, {}) IN n >= 0 /\ n <= Len(D)
+\* ... and the repaired defect is a real divergence of the design without the consumption (vacuity check of the invariant above)
+Inv_RootSeqWitness ==
+    (IsSoup /\ doc = <<60,33,91,67,68,65,84,65,91,93,93,62>>) => RootOptItems(DeEvents(doc, SkipDoctype), 1, 8, {"C07-1"}) = -1
+\* C15 under a custom resolver: the text of a run is the unescaped concatenation of its pieces - taking the comments, PIs and
+\* DOCTYPEs out of the document does not change what a String target gets (when both documents are one element with text)
+IsNoise(t) == t \in { <<60,33,45,45,120,45,45,62>>, <<60,63,112,63,62>>, <<60,33,68,79,67,84,89,80,69,32,100,62>> }
+Inv_ResolverRun ==
+    Mode = "textrunR" =>
+        \A t \in {x \in TextToksR : IsNoise(x)} :
+            LET a == StringOf(DeEventsE(doc, TRUE, "custom"))
+                b == StringOf(DeEventsE(doc \o t \o <<38,97,59,60,47,97,62>>, TRUE, "custom"))
+                c == StringOf(DeEventsE(doc \o <<38,97,59,60,47,97,62>>, TRUE, "custom")) IN
+            (b.known /\ c.known) => b.text = c.text
 \* C15: the DeEvent stream does not depend on the lexical presentation
 Inv_Rewrite ==
     (IsRw /\ phase = 1) =>
@@ -250,7 +273,7 @@ ZZ == <<122, 122>>
 UnkChild == << <<"Start", ZZ, <<>>>>, <<"Start", ZZ, <<>>>>, <<"Start", ZZ, <<>>>>, <<"End", ZZ, <<>>>>, <<"End", ZZ, <<>>>>, <<"Text", <<117>>, <<>>>>, <<"End", ZZ, <<>>>> >>
 WithUnk(T) == SubSeq(T, 1, Len(T) - 1) \o UnkChild \o SubSeq(T, Len(T), Len(T))
 TreeI == IF Mode = "interleave" /\ phase = 1 /\ ty = "F33" /\ "z" \in DOMAIN v.o[1][2].o[3][2] THEN WithNil(Tree)
-         ELSE IF Mode = "interleave" /\ phase = 1 /\ ty \in {"F22", "F23", "F29"} /\ Len(Tree) > 2 THEN WithUnk(Tree)
+         ELSE IF Mode = "interleave" /\ phase = 1 /\ ty \in {"F22", "F23", "F29", "F35"} /\ Len(Tree) > 2 THEN WithUnk(Tree)
          ELSE Tree
 
 \* C20: interleavings keep the multiset of children and the order within each name
@@ -264,7 +287,10 @@ Inv_Inter ==
 
 Inv_Emit ==
     Emit =>
-        CASE IsSoup -> PrintT(<<"REPLAY", ToJson([doc |-> doc, dts |-> DocTypes(doc)])>>)
+        CASE Mode = "textrunR" ->
+                LET sc == StringOf(DeEventsE(doc, TRUE, "custom")) IN
+                PrintT(<<"REPLAY", ToJson([doc |-> doc, dts |-> DocTypes(doc), strc |-> IF sc.known THEN <<sc.text>> ELSE <<>>])>>)
+          [] IsSoup -> PrintT(<<"REPLAY", ToJson([doc |-> doc, dts |-> DocTypes(doc)])>>)
           [] Mode = "rewriteS" /\ phase = 1 ->
                 PrintT(<<"REPLAY", ToJson([ty |-> "dyn", schema |-> TheType, v |-> v, base |-> Base,
                                            docs |-> {RenderDoc(Tree, st) : st \in {x \in Rewrites(Tree, UnkOk) \cup Combos(Tree, UnkOk) : InvisibleToEvents(x)}},
